@@ -231,9 +231,21 @@ class Layer(Graph):
         -----
         This method should be overridden by subclasses to avoid materializing the layer.
         """
+        from dask._task_spec import Alias, Task, TaskRef
         from dask.graph_manipulation import chunks
 
         is_leaf: bool
+
+        def clone_node(node, key):
+            """Rename a GraphNode and redirect its references to replaced keys"""
+            nonlocal is_leaf
+
+            subs = {k: clone_key(k, seed) for k in node.dependencies if k in keys}
+            if subs:
+                is_leaf = False
+            if isinstance(node, Alias):
+                return Alias(key, subs.get(node.target, node.target))
+            return node.substitute(subs, key=key)
 
         def clone_value(o):
             """Variant of distributed.utils_comm.subs_multiple, which allows injecting
@@ -242,7 +254,9 @@ class Layer(Graph):
             nonlocal is_leaf
 
             typ = type(o)
-            if typ is tuple and o and callable(o[0]):
+            if isinstance(o, GraphNode):
+                return clone_node(o, o.key)
+            elif typ is tuple and o and callable(o[0]):
                 return (o[0],) + tuple(clone_value(i) for i in o[1:])
             elif typ is list:
                 return [clone_value(i) for i in o]
@@ -264,10 +278,16 @@ class Layer(Graph):
             if key in keys:
                 key = clone_key(key, seed)
                 is_leaf = True
-                value = clone_value(value)
-                if bind_to is not None and is_leaf:
-                    value = (chunks.bind, value, bind_to)
-                    bound = True
+                if isinstance(value, GraphNode):
+                    value = clone_node(value, key)
+                    if bind_to is not None and is_leaf:
+                        value = Task(key, chunks.bind, value, TaskRef(bind_to))
+                        bound = True
+                else:
+                    value = clone_value(value)
+                    if bind_to is not None and is_leaf:
+                        value = (chunks.bind, value, bind_to)
+                        bound = True
 
             dsk_new[key] = value
 
